@@ -377,6 +377,18 @@ pub fn crafted() -> Vec<Vec<u8>> {
         b"com.example.Widget -> int:\n    void m() -> a\ncom.example.Sink -> void:\ncom.example.Flag -> boolean:\n    int f -> b\ncom.example.Gadget -> a.b:\n    void m(int) -> a\n",
         // names kept as they are, also as inlined callers: the original of an entry is itself an obfuscated key
         b"keep.K -> keep.K:\n    1:20:void renamed():101:120 -> outer\n    void log() -> log\nx.User -> u:\n    5:5:void x.Callee.c():13:13 -> q\n    5:5:void keep.K.outer():7:7 -> q\n    5:5:void run():40:40 -> q\n    9:9:void keep.K.log():3:3 -> r\n    9:9:void keep.K.log():4:4 -> r\n",
+        // entries that continue one another seamlessly (obfuscated and original ranges contiguous, same method name) but
+        // differ in their class qualifier: they are two entries
+        b"com.example.Widget -> w:\n    1:2:void com.example.Base.run():10:11 -> a\n    3:4:void run():12:13 -> a\n    5:6:void x.Other.run():14:15 -> a\n    7:8:void x.Other.run():16:17 -> a\n",
+        // member lines before the first class line (a section cut inside a block), then a class repeating their keys
+        b"    void run() -> a\n    1:2:void x(int):3:4 -> b\n    void run() -> a\ncom.example.Second -> s:\n    void run() -> a\n    1:2:void x(int):3:4 -> b\n    void y() -> c\ncom.example.Third -> t:\n    void run() -> a\n",
+        // nothing but a sourceFile header / nothing but member lines: no class survives, strings may
+        b"# {\"id\":\"sourceFile\",\"fileName\":\"Foo.kt\"}\n",
+        b"    void m() -> n\n    1:2:int f(long):3:4 -> g\n",
+        // two sourceFile headers in one block, one of them the synthetic marker; members on both sides
+        b"com.example.Main -> m:\n# {\"id\":\"sourceFile\",\"fileName\":\"Main.kt\"}\n    1:5:void first():10:14 -> a\n# {\"id\":\"sourceFile\",\"fileName\":\"R8$$SyntheticClass\"}\n    6:9:void second():20:23 -> b\n    void third() -> c\n",
+        // a class that is also a package of classes (P$x next to P.y), asked for through descriptors
+        b"com.example.ui.Widget -> a.b:\ncom.example.ui.Widget$State -> a.b$d:\ncom.example.ui.Widget$Kind -> a.b$c:\ncom.example.ui.pkg.E -> a.b.e:\ncom.example.ui.pkg.F -> a.b.f:\ncom.example.ui.A -> a:\n    void a() -> m\n    void b() -> m\n",
         // an empty obfuscated method name, in the middle of a class (legal for the parser)
         b"com.example.Worker -> a.b:\n    1:2:void first():5:6 -> \n    void second() -> \n    3:4:void run():41:42 -> a\n    int f -> b\n",
     ];
@@ -402,6 +414,27 @@ pub fn crafted() -> Vec<Vec<u8>> {
         lens.push_str(&format!("    void x.{}.g() -> h\n", long('C', *n - 2)));
     }
     out.push(lens.into_bytes());
+    out
+}
+
+/// stack-trace texts around the fixed prefixes the remappers look for: cut off behind them, followed by a wide
+/// character, with other white space than a blank behind them
+pub fn tricky_texts() -> Vec<String> {
+    let mut out = vec![];
+    for head in ["Exception in thread \"main\"", "Exception in thread \"", "Exception in thread \"main\" ", "Exception in thread \"main\"\u{2014}a.b: x",
+                 "Exception in thread \"main\" a: boom", "Exception in thread \"ma\u{e9}n\"a", "Caused by:", "Caused by: ", "Caused by:\u{a0}a: x", "a:", "a: ", ": x"] {
+        out.push(head.to_string());
+        out.push(format!("{head}\n    at a.m(F.java:1)\n"));
+        out.push(format!("x: y\n{head}\n"));
+    }
+    for at in ["at\u{a0}", "at\u{3000}", "at\u{85}", "at\t", "at  ", "at", "at\u{2003}"] {
+        out.push(format!("a: boom\n    {at}a.m(F.java:1)\n"));
+        out.push(format!("{at}a.m(F.java:1)"));
+        out.push(format!("a: boom\n\t{at}a.m(F.java:1)\u{a0}\n"));
+    }
+    for tail in ["(", "()", "(:", "(:)", "(F.java:)", "(F.java:1", ")", "(\u{e9}:1)", "(F.java:\u{b2})", "(F.java:18446744073709551616)"] {
+        out.push(format!("a: boom\n    at a.m{tail}\n"));
+    }
     out
 }
 
@@ -460,6 +493,11 @@ fn targeted_unguarded(src: &[u8], limit: usize) -> Vec<Value> {
                 out.push(by_line(lines[0]));
                 out.push(by_params(""));
                 out.push(by_line(lines[0]));
+                // the argument string spelled differently (blanks behind the commas, a blank in front): another string
+                if !arguments.is_empty() {
+                    out.push(by_params(&arguments.replace(',', ", ")));
+                    out.push(by_params(&format!(" {arguments}")));
+                }
                 out.push(json!({"t": "method", "class": bytes_json(&class), "method": bytes_json(obfuscated)}));
                 groups.push(out);
             }
